@@ -11,7 +11,8 @@ CLAIM = {
          "adjacency and emits add/remove LinkEvents exactly as the reference says. (O3) For every set of directed links over 3 (thorough: 4) switches "
          "the real _calc_spanning_tree/_update_tree leave NO_FLOOD cleared on a set of inter-switch ports such that a frame flooded from any switch "
          "reaches every switch of its bidirectional component exactly once, all host-facing ports keep flooding, and this still holds after one link "
-         "is toggled.",
+         "is toggled."
+         " Also: a failing second LinkEvent listener, expiry through a model of the recurring timer, and a switch that reboots or merely flaps its control channel (port configuration retained, topology changed meanwhile, both listener orders).",
  'note': "O3 is bounded exhaustive enumeration of graphs driven by the solver (all inputs are presence bits). Trusted: CPython, z3, symx proxies "
          "incl. char-level text for the 'dpid:<hex>' / port-number TLVs, stub connections/nexus, the flood simulator in props/C19.py.",
 }
